@@ -201,6 +201,11 @@ def run_point(ctx, p):
     m = len(A)
     sig = dict(api='%s.point' % c, lens='1' if m == 1 else 'M')
     try:
+        if p.get('prime'):
+            # what the process did just before must not matter: a sequence of the other dimension applied to some other point
+            pr = p['prime']
+            mk(pr['cls'], pr['A']) * np.asarray(pr['pt'], dtype=np.float64)
+            sig['after'] = 'a %s sequence times a point' % pr['cls']
         res = np.asarray(mk(c, A) * pt)
         want = [np.asarray(mk(c, [a]) * pt).reshape(-1) for a in A]
     except Exception as e:
@@ -465,6 +470,11 @@ def run(ctx):
                 if c in POSES + ['UnitQuaternion']:
                     d = 2 if c in ('SO2', 'SE2') else 3
                     drive(RUNNERS, ctx, 'point', dict(cls=c, A=elements(rng, c, m), pt=gen.vec(rng, d, 1e-2, 1e2)))
+                    if c in POSES:
+                        oc = {'SO2': 'SE3', 'SE2': 'SE3', 'SO3': 'SE2', 'SE3': 'SE2'}[c]
+                        od = 3 if oc == 'SE3' else 2
+                        drive(RUNNERS, ctx, 'point', dict(cls=c, A=elements(rng, c, m), pt=gen.vec(rng, d, 1e-2, 1e2),
+                                                          prime=dict(cls=oc, A=elements(rng, oc, int(rng.integers(2, 4))), pt=gen.vec(rng, od, 1e-1, 1e1))))
     for c in CLS:
         for op in ('mul', 'rmul', 'truediv'):
             for m in range(1, 6):
